@@ -33,7 +33,8 @@ func (rn *Runner) genDoc(maxNodes int) *Doc {
 
 var c01Tests = []NodeTest{{Kind: "any"}, {Kind: "node"}, {Kind: "text"}, {Kind: "comment"}, {Kind: "pi"}, {Kind: "pit", Local: "t"},
 	{Kind: "name", Local: "a"}, {Kind: "name", Local: "nope"}, {Kind: "nsany", Prefix: "p"}, {Kind: "localany", Local: "b"},
-	{Kind: "qn", Prefix: "p", Local: "a"}, {Kind: "qn", Prefix: "q", Local: "item"}, {Kind: "name", Local: "lang"}, {Kind: "qn", Prefix: "xml", Local: "lang"}}
+	{Kind: "qn", Prefix: "p", Local: "a"}, {Kind: "qn", Prefix: "q", Local: "item"}, {Kind: "name", Local: "lang"}, {Kind: "qn", Prefix: "xml", Local: "lang"},
+	{Kind: "name", Local: "p"}, {Kind: "name", Local: "text"}, {Kind: "qn", Prefix: "child", Local: "descendant"}, {Kind: "qn", Prefix: "text", Local: "node"}}
 
 func famC01(rn *Runner) {
 	env := stdEnv()
@@ -313,8 +314,14 @@ func famC03(rn *Runner) {
 						{Axis: "child", Test: NodeTest{Kind: "node"}}, {Axis: "following-sibling", Test: NodeTest{Kind: "node"}}}))
 				}
 				e = &EPath{Abs: true, Steps: ss}
-			case 1, 2:
+			case 1:
 				e = bin("|", g.NodeSet(1, 2), g.NodeSet(1, 2))
+			case 2:
+				// nodes of different kinds of the same elements: dedupe must not confuse them
+				P := g.Steps(0, 1+rn.R.Intn(2), 0)
+				with := func(s *Stp) Expr { return &EPath{Abs: true, Steps: append(append([]*Stp{}, P...), s)} }
+				e = bin("|", with(&Stp{Axis: "namespace", Test: NodeTest{Kind: "node"}}),
+					bin("|", with(&Stp{Axis: "attribute", Test: NodeTest{Kind: "any"}, Abbrev: true}), with(&Stp{Axis: "child", Test: NodeTest{Kind: "node"}})))
 			default:
 				e = g.NodeSet(2, 2)
 			}
@@ -453,6 +460,11 @@ func famC18(rn *Runner) {
 		// P/f() = f(P)
 		for i := 0; i < rn.Scale(100, 300) && !rn.TooMany(); i++ {
 			P := &EPath{Abs: true, Steps: g.Steps(1, 1+rn.R.Intn(2), 3)}
+			if rn.R.Chance(1, 3) {
+				// a prefix that ends in a reverse axis: the node-set is held nearest-first
+				P.Steps = append(P.Steps, &Stp{Axis: pick(rn.R, []string{"ancestor", "ancestor-or-self", "preceding", "preceding-sibling"}),
+					Test: pick(rn.R, []NodeTest{{Kind: "any"}, {Kind: "node"}})})
+			}
 			fn := pick(rn.R, ctxFns)
 			e1 := &EPath{Abs: true, Steps: append(append([]*Stp{}, P.Steps...), &Stp{IsCall: true, Q: RawQ{Local: fn}})}
 			e2 := call(fn, P)
